@@ -8,7 +8,9 @@ L6 (ii) — LaTeX output (`cnfgen/utils/latexoutput.py`) and format selection
   of token rows, one row per clause / constraint —, `pageBlocks` (the split every
   `clauses_per_page` rows), and the specification-side row readers `readClauseRow`,
   `readConstraintRow` (NOT cnfgen code: cnfgen has no LaTeX reader);
-* `lexLatexLine`: whitespace split + separation of a coefficient glued to its literal (`2{x_3}`).
+* `lexLatexLine`: whitespace split + separation of a coefficient glued to its literal (`2{x_3}`);
+* `readLatexClausesText`, `readLatexConstraintsText`: the row readers applied to the CHARACTERS of a body
+  (`Props/C12/LatexText.lean`: on what `_print_latex` writes they return the formula's clauses / constraints).
 Import-free.
 -/
 import CnfgenModel.Core.Sem
@@ -369,6 +371,27 @@ def readConstraintRow (names : List Str) (r : Row) : Except Err PBC :=
     match readLhs (litTable names) core with
     | .error e => .error e
     | .ok p => readRel p.1 p.2
+
+/-! ### specification-side reader of a whole body TEXT -/
+
+/-- the delimiter lines of the `align` blocks -/
+def isAlignRow : Row → Bool
+  | [t] => t == W "\\begin{align}" || t == W "\\end{align}" || t == W "\\end{align}\\pagebreak"
+  | _ => false
+
+/-- the rows between the delimiters, read one by one; a single `\top` is the empty formula -/
+def readLatexRows {α} (readRow : Row → Except Err α) (rows : List Row) : Except Err (List α) :=
+  let body := rows.filter (fun r => !isAlignRow r)
+  if body = [[W "\\top"]] then .ok [] else body.mapM readRow
+
+/-- an independent reader (NOT cnfgen code) of the CHARACTERS of a LaTeX body: physical lines, white-space
+split, coefficients un-glued, `align` delimiters dropped, every remaining line read as a clause row -/
+def readLatexClausesText (names : List Str) (t : Str) : Except Err (List Clause) :=
+  readLatexRows (readClauseRow names) (lexLatex t)
+
+/-- … as a constraint row -/
+def readLatexConstraintsText (names : List Str) (t : Str) : Except Err (List PBC) :=
+  readLatexRows (readConstraintRow names) (lexLatex t)
 
 /-! ### format selection -/
 
